@@ -25,6 +25,102 @@ fn dispatch<E: Engine>(e: &E, mode: &Mode) -> i32 {
     }
 }
 
+macro_rules! with_engine {
+    ($prop:expr, $e:ident => $body:expr) => {
+        match $prop {
+            "C01" => { let $e = &NetEngine { prop: NetProp::C01 }; $body }
+            "C02" => { let $e = &engines::c02::C02Engine; $body }
+            "C03" => { let $e = &NetEngine { prop: NetProp::C03 }; $body }
+            "C04" => { let $e = &NetEngine { prop: NetProp::C04 }; $body }
+            "C12" => { let $e = &engines::snapxfer::XferEngine; $body }
+            "C13" => { let $e = &engines::snapsync::SyncEngine; $body }
+            "C15" => { let $e = &engines::demo::DemoEngine; $body }
+            "C16" => { let $e = &engines::datafile::DfEngine; $body }
+            "C17" => { let $e = &engines::teehist::ThEngine; $body }
+            "C18" => { let $e = &engines::sbrowse::SbEngine; $body }
+            "C19" => { let $e = &engines::buffer::BufEngine; $body }
+            "C20" => { let $e = &engines::multi::MultiEngine { c02: false }; $body }
+            _ => {
+                eprintln!("unknown property {}", $prop);
+                2
+            }
+        }
+    };
+}
+
+/// Runs the real work in a child process so that a hard crash of the code under test
+/// (abort, memory fault) becomes a reported violation with a replay file instead of a dead check.
+fn supervise(args: &[String], mode: &Mode) -> i32 {
+    use std::io::{BufRead, BufReader, Write};
+    let exe = std::env::current_exe().unwrap();
+    let mut child = match std::process::Command::new(&exe)
+        .args(args)
+        .env("TW2SIM_CHILD", "1")
+        .stdin(std::process::Stdio::null())
+        .stderr(std::process::Stdio::piped())
+        .spawn()
+    {
+        Ok(c) => c,
+        Err(e) => {
+            eprintln!("HARNESS-ERROR: cannot spawn the worker process: {}", e);
+            return 2;
+        }
+    };
+    let stderr = child.stderr.take().unwrap();
+    let mut crash_line: Option<String> = None;
+    for line in BufReader::new(stderr).lines() {
+        let line = match line {
+            Ok(l) => l,
+            Err(_) => break,
+        };
+        if line.starts_with("TW2SIM-CRASH ") {
+            crash_line = Some(line.clone());
+        }
+        let _ = writeln!(std::io::stderr(), "{}", line);
+    }
+    let status = match child.wait() {
+        Ok(s) => s,
+        Err(e) => {
+            eprintln!("HARNESS-ERROR: wait: {}", e);
+            return 2;
+        }
+    };
+    let signal = match crash_signal_of(&status, crash_line.as_deref().unwrap_or("")) {
+        None => return status.code().unwrap_or(2),
+        Some(s) => s,
+    };
+    let field = |name: &str| -> Option<u64> {
+        crash_line.as_ref().and_then(|l| l.split_whitespace().find_map(|w| w.strip_prefix(name).and_then(|v| v.parse().ok())))
+    };
+    match mode {
+        Mode::Batch(o) => {
+            let (seed, index) = match (field("seed="), field("run_index=")) {
+                (Some(s), Some(i)) => (s, i),
+                _ => {
+                    eprintln!("HARNESS-ERROR: the worker process was killed by signal {} outside any simulated run", signal);
+                    return 2;
+                }
+            };
+            with_engine!(args[0].as_str(), e => handle_crash(e, o, seed, index, signal))
+        }
+        Mode::Replay(path, _) => {
+            let recorded: Option<ReplayFile> = std::fs::read_to_string(path).ok().and_then(|s| serde_json::from_str(&s).ok());
+            match recorded {
+                Some(rf) if rf.signature.get("class").map(|c| c == "process-crash").unwrap_or(false) => {
+                    println!("observation: the process replaying the case was killed by signal {}", signal);
+                    println!("signature: {:?}", rf.signature);
+                    println!("VIOLATION property={} replay={}", rf.property, path.display());
+                    1
+                }
+                _ => {
+                    eprintln!("HARNESS-ERROR: replay of {} crashed (signal {}) although the file records another outcome", path.display(), signal);
+                    2
+                }
+            }
+        }
+    }
+}
+
 fn main() {
     install_panic_hook();
     let args: Vec<String> = std::env::args().skip(1).collect();
@@ -76,6 +172,14 @@ fn main() {
         }
         Mode::Batch(o)
     };
+    // sanitizers and Miri report crashes in their own way
+    let plain = std::env::var_os("ASAN_OPTIONS").is_none() && !cfg!(miri);
+    if plain && std::env::var_os("TW2SIM_CHILD").is_none() && std::env::var_os("TW2SIM_NO_SUPERVISOR").is_none() {
+        std::process::exit(supervise(&args, &mode));
+    }
+    if plain {
+        install_crash_handler();
+    }
     let code = match prop.as_str() {
         "C01" => dispatch(&NetEngine { prop: NetProp::C01 }, &mode),
         "C02" => dispatch(&engines::c02::C02Engine, &mode),
